@@ -124,6 +124,11 @@ def gen_case(seed, tier, idx):
         # near-duplicate of the probe (same resolved end points, slightly different exact times), otherwise any op
         tol = xf(cfg["tol"])
         for pr in probes:
+            if pr["op"] == "point" and rp.random() < 0.5:
+                # a point evaluation at an earlier time that only replica 1 sees right before this point probe
+                t_ = xf(pr["t"])
+                pr["pre1"] = {"op": "point", "t": fx(bm._t(rp, cfg, dom, dom[0], t_))}
+                continue
             if pr["op"] != "q" or rp.random() >= 0.3:
                 continue
             if tol > 0 and rp.random() < 0.7:
